@@ -115,14 +115,14 @@ def to_hex(spec: dict) -> dict:
     return {"n": spec["n"], "k": spec["k"],
             "minima": [([float(x).hex() for x in c], float(e).hex()) for c, e in spec["minima"]],
             "ts": [(u, v, [float(x).hex() for x in c], float(e).hex()) for u, v, c, e in spec["ts"]],
-            "hist": [list(p) for p in spec["hist"]]}
+            "hist": [list(p) for p in spec["hist"]], "edits": [list(o) for o in spec.get("edits", [])]}
 
 
 def from_hex(d: dict) -> dict:
     return {"n": d["n"], "k": d["k"],
             "minima": [([float.fromhex(x) for x in c], float.fromhex(e)) for c, e in d["minima"]],
             "ts": [(u, v, [float.fromhex(x) for x in c], float.fromhex(e)) for u, v, c, e in d["ts"]],
-            "hist": [tuple(p) for p in d["hist"]]}
+            "hist": [tuple(p) for p in d["hist"]], "edits": [tuple(o) for o in d.get("edits", [])]}
 
 
 def roundtrip(k, suffix: str, path: str):
@@ -380,6 +380,15 @@ def predicate(spec: dict, suffix: str = ".p", path: str = "") -> tuple[str, str]
            "1d-coordinates" if spec["k"] == 1 else "no-ts" if not spec["ts"] else
            "empty-history" if not spec["hist"] else "general")
     k = build(spec)
+    # a network is saved at any point of its life: after edits as well (a self-connection added, a minimum removed)
+    for op in spec.get("edits", []):
+        if op[0] == "addts" and k.n_minima > max(op[1], op[2]):
+            k.add_ts(np.full(spec["k"], 0.25 * (1 + op[1])), 3.5 + op[2], op[1], op[2])
+        elif op[0] == "rmmin" and k.n_minima > op[1] and k.n_minima >= 2:
+            k.remove_minimum(op[1])
+    if spec.get("edits"):
+        spec = dict(spec, n=k.n_minima, hist=[tuple(int(x) for x in r) for r in np.asarray(k.pairlist).reshape(-1, 2)],
+                    ts=[(int(u), int(v), None, None) for u, v in k.G.edges()])
     outcome, k2 = roundtrip(k, suffix, path)
     if outcome != "ok":
         return f"roundtrip:{cls}:raises", f"dump/read of a network with {spec['n']} minima, {len(spec['ts'])} " \
@@ -421,7 +430,7 @@ def predicates(ctx: Ctx) -> None:
         ctx.stats.case({"stream": "predicate-corpus", "name": name}, True)
         if r:
             ctx.fail(r[0], r[1], {"spec": to_hex(spec), "suffix": ".p", "path": ""})
-    for suffix in (".gz", ".bz2", ".xz", ""):
+    for suffix in (".gz", ".bz2", ".xz", "", ".dataset1", ".metadata", "_coords"):
         for name, (n, edges, k, hist) in corpus[-3:]:
             spec = spec_network(random.Random(11), n, edges, k, hist)
             r = predicate(spec, suffix, "")
@@ -436,7 +445,11 @@ def predicates(ctx: Ctx) -> None:
         hist = [(rng.randrange(n), rng.randrange(n)) for _ in range(rng.choice([0, 0, 1, 2, 4]))]
         spec = spec_network(rng, n, edges, rng.choice([1, 1, 2, 3, 5]), hist)
         # numpy's text I/O (de)compresses transparently on these suffixes, so they are legitimate names too
-        suffix, path = rng.choice(["", ".p", "_b", ".p", "_b", ".gz", ".r2.bz2", ".xz"]), rng.choice(["", "", "pd/"])
+        suffix, path = rng.choice(["", ".p", "_b", ".p", "_b", ".gz", ".r2.bz2", ".xz", ".dataset1", "_coords2", ".min.data"]), \
+            rng.choice(["", "", "pd/"])
+        if rng.random() < 0.3 and n >= 2:
+            i = rng.randrange(n)
+            spec["edits"] = [("addts", i, i), ("rmmin", i)] if rng.random() < 0.6 else [("rmmin", i)]
         r = predicate(spec, suffix, path)
         ctx.stats.case({"stream": "predicate-random", "n": n, "m": len(edges), "k": spec["k"], "h": len(hist)}, True)
         if r:
